@@ -143,6 +143,12 @@ class ReSub(Rewrite):
         return out
 
 
+def _clause(c):
+    """contract clause text -> `code, // comment`"""
+    code, sep, com = c.strip().partition('   //')
+    return code.strip().rstrip(',') + ',' + ('   //' + com if sep else '')
+
+
 def apply_all(text, rewrites, log):
     for r in rewrites:
         text = r.apply(text, log)
@@ -285,7 +291,7 @@ class Unit:
             if cl:
                 ins += '\n' + M + 'invkw\x01invariant\x02'
                 for part, c in cl:
-                    ins += '\n' + M + part + '\x01    ' + c.strip().rstrip(',') + ',\x02'
+                    ins += '\n' + M + part + '\x01    ' + _clause(c) + '\x02'
             if spec.get('decreases'):
                 ins += '\n' + M + 'dec\x01decreases ' + spec['decreases'] + ',\x02'
             ins += '\n'
@@ -314,11 +320,11 @@ class Unit:
         c.add(sig, 'sig')
         if requires:
             c.add('    requires', 'kw')
-            for i, r in enumerate(requires): c.add('        ' + r.strip().rstrip(',') + ',', f'requires[{i}]')
+            for i, r in enumerate(requires): c.add('        ' + _clause(r), f'requires[{i}]')
         if ensures or True:
             if ensures: c.add('    ensures', 'kw')
             c.meta['ensures_at'] = len(c.lines)
-            for i, r in enumerate(ensures): c.add('        ' + r.strip().rstrip(',') + ',', f'ensures[{i}]')
+            for i, r in enumerate(ensures): c.add('        ' + _clause(r), f'ensures[{i}]')
         if returns:
             c.add('    returns ' + returns + ',', 'returns')
         if decreases:
@@ -362,10 +368,10 @@ class Unit:
         c.add(header, 'sig')
         if requires:
             c.add('    requires', 'kw')
-            for i, r in enumerate(requires): c.add('        ' + r.strip().rstrip(',') + ',', f'requires[{i}]')
+            for i, r in enumerate(requires): c.add('        ' + _clause(r), f'requires[{i}]')
         if ensures: c.add('    ensures', 'kw')
         c.meta['ensures_at'] = len(c.lines)
-        for i, r in enumerate(ensures): c.add('        ' + r.strip().rstrip(',') + ',', f'ensures[{i}]')
+        for i, r in enumerate(ensures): c.add('        ' + _clause(r), f'ensures[{i}]')
         c.add('{', 'wrap')
         c.add(frag, 'body')
         c.add(footer, 'wrap')
